@@ -1293,6 +1293,11 @@ func _expandGrid(_ string, _ pr.Shortand, tokens []Token) (out []namedTokens, _ 
 		val = []Token{autoTrackToken, dense}
 	}
 
+	if len(templates[autoTrack]) == 0 {
+		// grid-auto-rows / grid-auto-columns is optional
+		templates[autoTrack] = []Token{auto}
+	}
+
 	names := [2]string{rowT: "row", columnT: "column"}
 	return []namedTokens{
 		{pr.PGridAutoFlow, val},
